@@ -536,9 +536,6 @@ func registerStrings(m map[string]Intrinsic) {
 		if s.IsConc && sep.IsConc {
 			return val(e.C.Bool(strings.Contains(s.Conc, sep.Conc)))
 		}
-		if s.IsConc {
-			unsupportedf("strings.Contains of concrete string with symbolic substring")
-		}
 		return val(e.C.Sge(e.Index(s, sep, nil), e.i64(0)))
 	}
 	m["strings.Count"] = func(e *Exec, st *State, ci *CallInfo) Outcome {
